@@ -1434,3 +1434,12 @@ _run_c03_prev12 = run
 def run(res, facts, tier):
     _run_c03_prev12(res, facts, tier)
     r12_null_slots(res, facts)
+
+
+_run_c03_prev13 = run
+
+
+def run(res, facts, tier):
+    _run_c03_prev13(res, facts, tier)
+    from . import c01_vars
+    c01_vars.run_cycle_rule(res, facts, tier)
